@@ -275,7 +275,7 @@ func (wtr *JSONWtr) writeValue(p *node.Path, v val.Value) error {
 		case val.FmtIdentityRef:
 			idtyStr := item.String()
 			leafMod := meta.NamespaceModule(p.Meta)
-			bases := p.Meta.(meta.HasType).Type().Base()
+			bases := p.Meta.(meta.HasType).Type().IdentityBases()
 			idty := meta.FindIdentity(bases, idtyStr)
 			if idty == nil {
 				return fmt.Errorf("could not find ident '%s'", idtyStr)
